@@ -142,7 +142,7 @@ static const uint8_t kTags[] = { 0x30, 0x31, 0x02, 0x03, 0x04, 0x05, 0x06, 0x0c,
                                  0xa0, 0xa1, 0xa2, 0xa3, 0xa4, 0x80, 0x81, 0x82, 0x84, 0x86, 0x87, 0x88 };
 
 // Apply one structural mutation.  donor (may be empty) supplies a foreign subtree for splicing.
-inline bool mutate_tree(std::vector<Node> &roots, Rng &r, size_t maxOut, const std::vector<Node> *donor) {
+inline bool mutate_tree(std::vector<Node> &roots, Rng &r, size_t hardMax, const std::vector<Node> *donor) {
     std::vector<Ref> refs; collect(roots, 0, refs);
     if (refs.empty()) return false;
     // bias toward deeper nodes a little: pick two, keep the deeper one half of the time
@@ -151,11 +151,15 @@ inline bool mutate_tree(std::vector<Node> &roots, Rng &r, size_t maxOut, const s
     Node &nd = (*t.vec)[t.idx];
     Bytes cur; ser(nd, cur);
     size_t real = cur.size();
+    // Only the two deliberate "grow past 64 KiB" operators may use the whole size budget; everything else
+    // stays near the current size so that large max_len does not flood the corpus with huge inputs.
+    size_t total = 0; { Bytes all; ser_list(roots, all); total = all.size(); }
+    size_t maxOut = hardMax < total + total / 2 + 1024 ? hardMax : total + total / 2 + 1024;
     unsigned op = (unsigned) r.below(donor ? 15 : 14);
     if (op == 13) { // pad one primitive value so that the OUTERMOST TLV's content length lands on a 15/16-bit boundary
         static const size_t targets[] = { 0x7fff, 0x8000, 0x8001, 0xfffb, 0xfffc, 0xfffd, 0xfffe, 0xffff, 0x10000, 0x10001, 0x10004 };
         size_t want = targets[r.below(sizeof targets / sizeof targets[0])];
-        if (nd.parsedKids || nd.raw || roots.empty() || want + 16 > maxOut) return false;
+        if (nd.parsedKids || nd.raw || roots.empty() || want + 16 > hardMax) return false;
         uint8_t fill = nd.content.empty() ? 'a' : nd.content[nd.content.size() - 1];
         if (fill < 0x20 || fill > 0x7e) fill = 'a';
         for (int it = 0; it < 4; it++) {
@@ -215,7 +219,7 @@ inline bool mutate_tree(std::vector<Node> &roots, Rng &r, size_t maxOut, const s
     case 8: { // real growth / shrink of a value (bytes present, lengths consistent)
         static const size_t sizes[] = { 0, 1, 2, 127, 128, 129, 255, 256, 257, 1000, 32767, 32768, 65534, 65535, 65536, 65537, 65540, 70000 };
         size_t want = sizes[r.below(sizeof sizes / sizeof sizes[0])];
-        if (want + 16 > maxOut) want = r.below(maxOut > 32 ? maxOut - 32 : 1);
+        if (want + total + 16 > hardMax) want = r.below(maxOut > total + 32 ? maxOut - total - 32 : 1);
         if (nd.parsedKids && !nd.kids.empty()) {
             Node k = nd.kids[r.below(nd.kids.size())]; Bytes kb; ser(k, kb);
             size_t total = 0; for (auto &x : nd.kids) { Bytes t2; ser(x, t2); total += t2.size(); }
@@ -371,7 +375,9 @@ extern "C" size_t LLVMFuzzerCustomMutator(uint8_t *Data, size_t Size, size_t Max
     using namespace asn1mut;
     Rng r(Seed);
     Framed f;
-    if (r.below(100) < 35 || !unframe(Data, Size, f)) return LLVMFuzzerMutate(Data, Size, MaxSize);
+    // generic byte-level mutations may grow the input only moderately (see mutate_tree)
+    size_t softMax = MaxSize < Size + Size / 2 + 1024 ? MaxSize : Size + Size / 2 + 1024;
+    if (r.below(100) < 35 || !unframe(Data, Size, f)) return LLVMFuzzerMutate(Data, Size, softMax);
     if (r.below(12) == 0) { // selector byte
         size_t hi = r.below(C09_HDR);
         Data[hi] = (uint8_t) (r.below(2) ? r.next() : Data[hi] ^ (1u << r.below(8)));
@@ -380,12 +386,12 @@ extern "C" size_t LLVMFuzzerCustomMutator(uint8_t *Data, size_t Size, size_t Max
     int k = (int) r.below(C09_PARTS);
     for (int i = 0; i < C09_PARTS && f.part[k].empty(); i++) k = (k + 1) % C09_PARTS;
     size_t others = Size - f.part[k].size();
-    if (MaxSize <= others + 8) return LLVMFuzzerMutate(Data, Size, MaxSize);
+    if (MaxSize <= others + 8) return LLVMFuzzerMutate(Data, Size, softMax);
     Bytes out;
-    if (!mutate_part(f.part[k], out, r, MaxSize - others, nullptr)) return LLVMFuzzerMutate(Data, Size, MaxSize);
+    if (!mutate_part(f.part[k], out, r, MaxSize - others, nullptr)) return LLVMFuzzerMutate(Data, Size, softMax);
     f.part[k].swap(out);
     size_t n = 0;
-    if (!reframe(f, Data, MaxSize, n)) return LLVMFuzzerMutate(Data, Size, MaxSize);
+    if (!reframe(f, Data, MaxSize, n)) return LLVMFuzzerMutate(Data, Size, softMax);
     return n;
 }
 
